@@ -363,6 +363,18 @@ def isfile_guarded(ctx, fn, node):
             if isinstance(a, ast.Call) and (C.is_ext_call(ctx, a, fn, ("os.path.isfile",)) or (isinstance(a.func, ast.Attribute) and a.func.attr == "is_file")):
                 if C.branch_when(b, lambda x, a=a: True if x is a else None) == lab:
                     return True
+            # self.flag with the single definition  self.flag = os.path.isfile(<content path>)
+            if isinstance(a, ast.Attribute) and isinstance(a.value, ast.Name) and fn.self_name and a.value.id == fn.self_name and fn.cls is not None:
+                defs = []
+                for c in ctx.prog.mro(fn.cls):
+                    for m in c.methods.values():
+                        for x in own_nodes(m.node):
+                            if isinstance(x, ast.Assign) and any(isinstance(tg, ast.Attribute) and tg.attr == a.attr and isinstance(tg.value, ast.Name) and tg.value.id == m.self_name for tg in x.targets):
+                                defs.append((m, x.value))
+                if len(defs) == 1 and isinstance(defs[0][1], ast.Call) and (C.is_ext_call(ctx, defs[0][1], defs[0][0], ("os.path.isfile",))
+                                                                         or (isinstance(defs[0][1].func, ast.Attribute) and defs[0][1].func.attr == "is_file")):
+                    if C.branch_when(b, lambda x, a=a: True if x is a else None) == lab:
+                        return True
     return False
 
 
@@ -461,7 +473,7 @@ def run(ctx):
             for gen in node.generators:
                 sink(o.fn, gen.iter, [gen.iter], p + ("<order>",), "comprehension order")
     for ins, objs in pt.insertions_into(kp.keys()):
-        if ins.how == "del" or ins.fn is None:
+        if ins.how in ("del", "rekey") or ins.fn is None:
             continue
         p = sorted({pp for o in objs for pp in kp[o]}, key=lambda x: (len(x), x))[0]
         ck = const_str(ins.key) if ins.key is not None else None
